@@ -487,7 +487,6 @@ def get_fg_bg_colors(
 def get_fg_bg_colors(*, hex: Literal[True]) -> tuple[str | None, str | None]: ...
 
 
-@cached
 def get_fg_bg_colors(
     *, hex: Literal[False, True] = False
 ) -> tuple[ColorType | str | None, ColorType | str | None]:
@@ -505,6 +504,17 @@ def get_fg_bg_colors(
         * an RGB hex string if *hex* is ``True``
         * ``None`` if undetermined
     """
+    # Both forms are derived from one and the same (cached) determination
+    fg, bg = _get_fg_bg_colors()
+
+    return (
+        fg and (HEX_RGB_FMT % fg if hex else fg),
+        bg and (HEX_RGB_FMT % bg if hex else bg),
+    )
+
+
+@cached
+def _get_fg_bg_colors() -> tuple[ColorType | None, ColorType | None]:
     # The terminal's response to the queries is not read all at once
     with _tty_lock, _tty_lock:  # See the comment in `lock_tty_wrapper()`
         response = query_terminal(
@@ -525,10 +535,14 @@ def get_fg_bg_colors(
             elif c == "11":
                 bg = ctlseqs.x_parse_color(spec)
 
-    return (
-        fg and (HEX_RGB_FMT % fg if hex else fg),
-        bg and (HEX_RGB_FMT % bg if hex else bg),
-    )
+    return fg, bg
+
+
+setattr(
+    get_fg_bg_colors,
+    "_invalidate_cache",
+    getattr(_get_fg_bg_colors, "_invalidate_cache"),
+)
 
 
 @cached
